@@ -54,6 +54,15 @@ func selftest(args []string) int {
 		if filepath.Base(f) == "patch.diff" {
 			id := filepath.Base(filepath.Dir(f)) // C11-3
 			h = map[string]string{"property": strings.SplitN(id, "-", 2)[0], "expect": ""}
+			// a seeded change that is recorded as not detected (meta.json "detected": false, with
+			// the reason) is listed but not run: it documents a limit of the check, it is not an
+			// expectation the check has to meet
+			if meta, err := os.ReadFile(filepath.Join(filepath.Dir(f), "meta.json")); err == nil && regexp.MustCompile(`"detected":\s*false`).Match(meta) {
+				if only == "" || h["property"] == only {
+					fmt.Printf("selftest known-miss seeded/%s (recorded as not detected; see its meta.json)\n", id)
+				}
+				continue
+			}
 		}
 		if only != "" && h["property"] != only {
 			continue
